@@ -92,9 +92,9 @@ PROPS = {
         'rule': "16 clients x N pod CREATE/UPDATE reviews with unique uids over privileged (shared response), exempt, baseline, restricted and malformed-label namespaces; 16 malformed classes (sizes around 3 MiB, content types, undecodable, v1beta1, other kind, no request). distinct_nontrivial = reviews sent",
     },
     'C17': {
-        'level_text': "Theorems C17_versions (a document loads identically under each served version), C17_defaults / C17_empty_is_all_defaults, C17_strict_top / C17_strict_version / C17_strict_defaults (unknown or duplicated keys, wrong kind, unserved version are errors), C17_validate_iff (validation accepts exactly: six defaults parse, namespaces are DNS labels, runtime classes DNS subdomains, user names non-empty, no duplicates), C17_chain (accepted => ToPolicy succeeds field for field and an unlabeled namespace resolves to it). Document trees rendered as JSON and YAML are loaded and validated by the real code and compared with the model.",
+        'level_text': "Theorems C17_versions (a document loads identically under each served version), C17_defaults / C17_empty_is_all_defaults, C17_strict_top / C17_strict_version / C17_strict_defaults (unknown or duplicated keys, wrong kind, unserved version are errors), C17_validate_iff (validation accepts exactly: six defaults parse, namespaces are DNS labels, runtime classes DNS subdomains, user names non-empty, no duplicates), C17_chain (accepted => ToPolicy succeeds field for field and an unlabeled namespace resolves to it). Document trees rendered as JSON and YAML are loaded and validated by the real code and compared with the model. Set-up (Psa/Setup.lean): C17_setup_iff (a controller with every dependency completes and validates iff the configuration validates), C17_setup_enforces_stated, C17_webhook_setup (the webhook's LoadConfig+Setup serves iff the file loads and validates, then with the stated policy and exemptions; otherwise it refuses), C17_validate_needs_complete, C17_validate_detects_exchange; the real options -> LoadConfig -> Setup -> HandleValidate chain is run from configuration files against a fake API server and its verdicts compared with the model fed the stated strings.",
         'level_note': "Trusted: Lean kernel; harness. Modelled, not verified: the strict universal decoder's treatment of document trees (known keys, duplicates, null, wrong JSON types, case-sensitive keys) -- tied differentially; the JSON/YAML tokenizers (multi-document YAML, anchors, encodings) are outside the model. One genuine defect found and fixed (known_findings.json).",
-        'rule': "structurally valid documents (any subset of fields; valid and invalid values; names around the DNS length limits) plus 0-2 structural defects out of 14 kinds; every catalogued served / unserved apiVersion on a minimal and a full document; each document as JSON and YAML and, when served, re-loaded under the other served versions. distinct_nontrivial = distinct documents that load",
+        'rule': "structurally valid documents (any subset of fields; valid and invalid values; names around the DNS length limits) plus 0-2 structural defects out of 14 kinds; a mostly-valid stream for the set-up chain (files on disk, JSON and YAML, no file, empty file; six pod reviews per serving webhook: unlabelled namespace, exempt namespace / user / runtime class as stated); hand-assembled controllers over every subset of dependencies, with / without CompleteConfiguration, configuration exchanged after completion; every catalogued served / unserved apiVersion on a minimal and a full document; each document as JSON and YAML and, when served, re-loaded under the other served versions. distinct_nontrivial = distinct documents that load",
     },
     'C18': {
         'race': True,
@@ -110,7 +110,7 @@ PROPS = {
         'assumptions': ["message text alphabet: printable ASCII, the Go escapes, a few printable non-ASCII runes"],
     },
     'C14': {
-        'level_text': "Theorems C14_rev_order_independent / C14_order_independent: every revision and every evaluation (verdict, reason and detail bytes) is invariant under permutation of the annotation map's entries, the only map the checks iterate; C14_values_canonical (value sets rendered through a sort that forgets order and multiplicity). The real evaluator is run 1+8 times serially and from 16 goroutines under the race detector, the pod compared with a deep copy, and the bytes compared with the model fed two iteration orders. C14_evaluator_immutable (F9: package policy writes no state that outlives a call). Fresh evaluators are hit by bursts of 16 first evaluations and every pod is also evaluated on an evaluator built for it alone.",
+        'level_text': "Theorems C14_rev_order_independent / C14_order_independent: every revision and every evaluation (verdict, reason and detail bytes) is invariant under permutation of the annotation map's entries, the only map the checks iterate; C14_values_canonical (value sets rendered through a sort that forgets order and multiplicity). The real evaluator is run 1+8 times serially and from 16 goroutines under the race detector, the pod compared with a deep copy, and the bytes compared with the model fed two iteration orders. C14_evaluator_immutable (F9: package policy writes no state that outlives a call). Fresh evaluators are hit by bursts of 16 first evaluations and every pod is also evaluated on an evaluator built for it alone. Every slice of an evaluated pod has spare capacity whose content is checked afterwards; the informer-backed PodLister / lister-backed NamespaceGetter are run over cache objects that must stay untouched. F5 also counts append() to a slice reached from the pod.",
         'level_note': "Trusted: Lean kernel; harness. Partial: absence of data races and of writes through the pod pointers is observed (race detector, DeepEqual), not proved in Lean.",
         'race': True,
         'rule': "pods forced to carry several offending annotations / capabilities / ports; evaluated 1+8 times serially and from 16 goroutines under the race detector; pod deep-equal to its copy; "
